@@ -22,6 +22,9 @@ type Proc struct {
 	exited time.Time
 }
 
+// ProcSecret is the HMAC key of the upstream port of every process started by StartProc.
+const ProcSecret = "c18-secret"
+
 func freeAddr() string {
 	ln, err := net.Listen("tcp", "127.0.0.1:0")
 	if err != nil {
@@ -42,6 +45,8 @@ func StartProc(bin, id string, join []string, grace time.Duration, logPath strin
 		"--proxy.access-log.disable",
 		"--grace-period", grace.String(),
 		"--log.level", "warn",
+		// the upstream port is authenticated: listeners present tokens with and without an expiry
+		"--upstream.auth.hmac-secret-key", ProcSecret,
 	}
 	if len(join) > 0 {
 		for _, j := range join {
